@@ -143,6 +143,7 @@ func runCheck(cmd, id, repo, verif, tier string, keep bool, only string, verbose
 		return 2
 	}
 	eng.specs = specs
+	eng.verif = verif
 	tLoad := time.Since(t0).Seconds()
 
 	outDir := filepath.Join(verif, "out", id)
